@@ -12,8 +12,10 @@ import time
 import traceback
 
 VERIF = os.path.dirname(os.path.dirname(os.path.abspath(__file__)))
-EVID = os.path.join(VERIF, "evidence")
 OUT = os.path.join(VERIF, "out")
+_SCRATCH = os.environ.get("VERIF_REPO", "/repo").rstrip("/") != "/repo"
+# evidence is only ever written for runs against /repo itself; sensitivity runs against a scratch copy go elsewhere
+EVID = os.path.join(OUT, "scratch_evidence") if _SCRATCH else os.path.join(VERIF, "evidence")
 KNOWN = os.path.join(VERIF, "known_findings.json")
 
 HOLDS, VIOLATION, UNDECIDED, INCONCLUSIVE, REJECTED, HARNESS = (
@@ -102,7 +104,7 @@ def finish(mod, tier, seed, shapes, results, wall):
             else:
                 new_violations.append(v)
     os.makedirs(EVID, exist_ok=True)
-    os.makedirs(os.path.join(OUT, "replay"), exist_ok=True)
+    os.makedirs(os.path.join(OUT, "scratch_replay" if _SCRATCH else "replay"), exist_ok=True)
     lines = []
     for site in sorted(known_hit):
         lines.append(f"KNOWN-FINDING: property={pid} {site}")
@@ -112,7 +114,7 @@ def finish(mod, tier, seed, shapes, results, wall):
         if v["site"] in seen_sites:
             continue
         seen_sites.add(v["site"])
-        path = os.path.join(OUT, "replay", f"{pid}-{stable_hash(v['site'])}.json")
+        path = os.path.join(OUT, "scratch_replay" if _SCRATCH else "replay", f"{pid}-{stable_hash(v['site'])}.json")
         v["property"] = pid
         v["command"] = f"./run.sh {pid} --replay {path}"
         with open(path, "w") as f:
